@@ -4,7 +4,7 @@
 For each change a scratch worktree of /repo's HEAD is created under /tmp, patch.diff is applied there,
 the check runs with SEGNO_REPO pointing at it (evidence and replay files go into the scratch tree, never into /verif) (identical to `git -C /repo apply` + run + `git checkout`,
 without touching /repo), and the worktree is removed. Result goes to meta.json["last_run"].
-usage: run_seeded.py [id ...]
+usage: run_seeded.py [id ...]      (SEEDED_VERIF_SEED=<n> runs the checks with another batch seed; meta.json is then not updated)
 """
 import json, os, subprocess, sys, time, shutil
 
@@ -21,7 +21,7 @@ for sid in ids:
         results = {}
         for prop in meta['expected_caught_by']:
             t0 = time.time()
-            env = dict(os.environ, SEGNO_REPO=wt, VERIF_EVIDENCE_DIR=wt + '/_evidence', VERIF_REPLAY_DIR=wt + '/_replays')
+            env = dict(os.environ, SEGNO_REPO=wt, **({'VERIF_SEED': os.environ['SEEDED_VERIF_SEED']} if os.environ.get('SEEDED_VERIF_SEED') else {}), VERIF_EVIDENCE_DIR=wt + '/_evidence', VERIF_REPLAY_DIR=wt + '/_replays')
             p = subprocess.run(['/venv/bin/python', '/verif/check.py', prop, '--tier', 'quick'], env=env, stdout=subprocess.PIPE, stderr=subprocess.STDOUT)
             out = p.stdout.decode(errors='replace')
             clauses = sorted(set(ln.strip().split(':')[0] for ln in out.splitlines() if ln.startswith('  c')))
@@ -31,7 +31,8 @@ for sid in ids:
                 rc = 1
         meta['last_run'] = {'repo_head': subprocess.run(['git', '-C', '/repo', 'rev-parse', '--short', 'HEAD'], stdout=subprocess.PIPE).stdout.decode().strip(),
                             'results': results}
-        json.dump(meta, open(os.path.join(d, 'meta.json'), 'w'), indent=1)
+        if not os.environ.get('SEEDED_VERIF_SEED'):
+            json.dump(meta, open(os.path.join(d, 'meta.json'), 'w'), indent=1)
     finally:
         subprocess.run(['git', '-C', '/repo', 'worktree', 'remove', '--force', wt])
         shutil.rmtree(wt, ignore_errors=True)
